@@ -162,8 +162,27 @@ _ABSTRACT_MAPPING: t.Mapping[type, type] = t.cast(t.Mapping[type, type], {
 """Mapping to attempt to choose a simple concrete type for abstract/base collection types"""
 
 
+class _IdentityKey:
+    """
+    Cache key component which compares `obj` by identity.
+
+    Unlike a bare `id(obj)`, this keeps `obj` alive for as long as the key is stored,
+    so the id can't be recycled for a different type while a converter is cached under it.
+    """
+    __slots__ = ('obj',)
+
+    def __init__(self, obj: t.Any):
+        self.obj: t.Any = obj
+
+    def __hash__(self) -> int:
+        return id(self.obj)
+
+    def __eq__(self, other: t.Any) -> bool:
+        return isinstance(other, _IdentityKey) and self.obj is other.obj
+
+
 def _make_converter_key_f(ty: IntoConverter, handlers: ConverterHandlers = ConverterHandlers()) -> t.Any:
-    return (id(ty), handlers)
+    return (_IdentityKey(ty), handlers)
 
 
 @t.overload
